@@ -144,6 +144,25 @@ Theorem C13_wrap_fixed :
   retx_tsns (chunks_of (snd (run wrap_cfg wrap_state [OpSack 10 4294967294 1048576 []; OpT3; OpTransmit]))) = [0; 4294967295].
 Proof. exact wrap_fixed_processes_sack. Qed.
 
+(* a SACK the late filter drops is really stale: in every reachable state whose outstanding TSNs lie
+   within 2^30 of the oldest one (m), a dropped SACK with its cumulative point within 2^30 of m and
+   well-formed gap blocks covers none of the outstanding TSNs.  Together with C13_no_rtx_after_ack:
+   every delivered SACK that covers an outstanding t is processed and ends the retransmission of t *)
+Theorem C13_dropped_sack_covers_nothing : forall c ops a b c0 m kc cum gaps,
+  let sent := s_sent (fst (run c (init_state a b c0) ops)) in
+  0 <= m < 4294967296 ->
+  (forall r, In r sent -> exists j, 0 <= j < 1073741824 /\ r_tsn r = wrap32 (m + j)) ->
+  (exists r, In r sent /\ r_tsn r = m) ->
+  cum = wrap32 (m + kc) -> - 1073741824 <= kc < 1073741824 ->
+  Forall (fun g => 0 <= fst g <= snd g /\ snd g < 65536) gaps ->
+  late_sack sent cum gaps = true ->
+  forall r, In r sent -> ~ sack_covers cum gaps (r_tsn r).
+Proof. exact dropped_sack_covers_nothing. Qed.
+
+(* the sent queue stays sorted by key (the BTreeMap order the model relies on) *)
+Theorem C13_sent_queue_sorted : forall c ops s, sorted (s_sent s) -> sorted (s_sent (fst (run c s ops))).
+Proof. exact run_sorted. Qed.
+
 (* ================================================================== quiescence *)
 (* sent queue empty, outbound queue empty, no SACK owed: transmit, T3, the probe and the
    delayed-SACK flush emit nothing, in any number and order, and the state stays quiescent
